@@ -501,6 +501,26 @@ def some_payloads(ctx, n, fit=True, **kw):
     return out
 
 
+def standard_size_cases(ctx, reps):
+    """frames the properties call *valid* are valid by the standards, not merely by the library's own tables:
+    for every identity whose size formula is pinned, payloads laid out from the current definition (several
+    repeat-count / mask / condition choices) must have the pinned size; a definition that lays the same
+    fields out in another size would garble or drop frames built to the standard"""
+    cs = []
+    for rep in range(reps):
+        for tn, e in ctx.entries:
+            try:
+                r = gens.gen_payload(ctx.b, e, ctx.rng, fit=True, count_mode=ctx.rng.choice(["zero", "one", "small"]))
+            except gens.BuildError:
+                continue
+            want = pinned.size_bits(e["key"], ctx.b.vals, r["occs"])
+            if want is not None and want != r["nbits"]:
+                cs.append(case("msg 1 " + hx(r["payload"]), "std-size:" + e["key"],
+                               ("equals", {"expected": "a %s message with these repeat counts occupies %d bits in the standard, the "
+                                           "definition lays out %d: frames built to the standard are garbled or dropped" % (e["key"], want, r["nbits"])})))
+    return cs
+
+
 def good_frames(ctx, n):
     """valid frames of implemented (decodable) and unknown types"""
     out = []
@@ -1479,6 +1499,26 @@ def threads_run(lines, nthreads, reps, seed):
     return seen, errs
 
 
+def fresh_repeat(lines):
+    """evaluate each op twice in ONE fresh interpreter; returns [(first, second)]"""
+    import json as _json
+    import os
+    import subprocess
+    import sys as _sys
+    here = os.path.dirname(os.path.abspath(__file__))
+    code = ("import sys, json; sys.path.insert(0, %r); import impl\n"
+            "res = []\n"
+            "for l in json.load(sys.stdin):\n"
+            "    a = impl.eval_guarded(l); b = impl.eval_guarded(l); res.append([a, b])\n"
+            "print('FRESH-REPEAT ' + json.dumps(res))" % here)
+    pr = subprocess.run([os.environ.get("VERIF_PYTHON", "/venv/bin/python"), "-c", code], input=_json.dumps(lines),
+                        capture_output=True, text=True, env=dict(os.environ), timeout=900)
+    ls = [l for l in pr.stdout.splitlines() if l.startswith("FRESH-REPEAT ")]
+    if not ls:
+        return [("fresh interpreter failed: " + (pr.stderr or pr.stdout)[-200:], "")] * len(lines)
+    return [tuple(x) for x in _json.loads(ls[-1][len("FRESH-REPEAT "):])]
+
+
 def direct_C13(ctx, impl_):
     """(a) parsing never modifies the definition / lookup tables; (b) concurrent parses in several
     threads (forced switching) give, for every input, the answer a single-threaded parse gives"""
@@ -1520,13 +1560,31 @@ def direct_C13(ctx, impl_):
                              "impl": bad[0][:2000], "oracle": None})
     for e in errs:
         failures.append({"line": lines[0], "extra": {"threads": nthreads}, "klass": "threads", "what": e, "impl": "", "oracle": None})
+    # (c) repeat probe in a fresh interpreter: every defined identity, a long all-zero payload, parsed twice
+    # there and once here: the three results must coincide (first-use effects, consumed iterators, caches)
+    rep_lines = []
+    for tn, e in ctx.entries:
+        num = e["num"]
+        head = bytes([num >> 4, (num & 15) << 4])
+        if num == 4076:
+            sub = int(e["key"].split("_")[1])
+            head = bytes([num >> 4, ((num & 15) << 4) | (0 << 1) | (sub >> 7), (sub & 0x7f) << 1])
+        rep_lines.append("msg 1 " + hx(head + bytes(400 - len(head))))
+    reps_out = fresh_repeat(rep_lines)
+    for l, (o1, o2) in zip(rep_lines, reps_out):
+        here = impl_.eval_guarded(l)
+        if not (o1 == o2 == here):
+            failures.append({"line": l, "extra": {"repeat": True}, "klass": "repeat",
+                             "what": "the same bytes parsed twice in a fresh interpreter and once after other parses give different results: %s / %s / %s" % (o1[:70], o2[:70], here[:70]),
+                             "impl": o2[:2000], "oracle": None})
     after = _table_digest()
     for k in sorted(set(before) | set(after)):
         if before.get(k) != after.get(k):
             failures.append({"line": lines[0], "extra": {"table": k, "corpus": lines[:400]}, "klass": "tables",
                              "what": "parsing modified the library table %s" % k, "impl": "", "oracle": None})
     return {"evaluations": len(lines) * (1 + nthreads * reps), "failures": failures[:10],
-            "classes": ["threads:%d" % nthreads, "tables-unchanged:%d" % len(before)],
+            "classes": ["threads:%d" % nthreads, "tables-unchanged:%d" % len(before), "repeat-probe:%d" % len(rep_lines)],
+            "repeat_probe_ops": len(rep_lines),
             "threads": nthreads, "thread_ops": len(lines) * nthreads * reps, "tables_watched": len(before)}
 
 
@@ -1618,3 +1676,15 @@ def cases_C10(ctx):
 
 
 GENERATORS = {k[6:]: v for k, v in list(globals().items()) if k.startswith("cases_C")}
+
+
+def _with_standard_sizes(gen):
+    def wrapped(ctx):
+        cs = gen(ctx)
+        return cs + standard_size_cases(ctx, ctx.n(3, 12))
+    return wrapped
+
+
+# properties about *valid frames* in streams: validity is by the standard
+for _pid in ("C01", "C02", "C05", "C17"):
+    GENERATORS[_pid] = _with_standard_sizes(GENERATORS[_pid])
